@@ -1,6 +1,97 @@
-import HranoModel.Model.Options
-import HranoModel.Model.Sink
-import HranoModel.Model.Chan
-/-! C09 property theorems (statements only in this file; helper lemmas live in Lemmas/) -/
+import HranoModel.Lemmas.Errors
+import HranoModel.Lemmas.Run
+/-!
+C09 — malformed entries are reported with their exact line by lint and every command.
+
+Property theorems only (helper lemmas: `Lemmas/Errors.lean`).  The specification of "the malformed
+lines of a file" is `Parser.specErrors`: the indented lines inside a record that have no blank
+before their value, or whose value is not a number, each with its 1-based physical line number
+and its raw text.  An indented line before the first heading is not an entry in the documented
+grammar and is ignored by the parser.  lint's exit status on a file with errors is not asserted.
+-/
 namespace Hrano.C09
+open Hrano Hrano.App Hrano.Parser
+
+/-- The parser's error events are exactly the malformed lines of the file, in file order. -/
+theorem events_errors (cc : UInt8) (src : Bytes) :
+    errorsOf (events cc src) = specErrors cc false 1 (Scanner.scan src none).1 := by
+  simpa [events] using errors_spec cc true (Scanner.scan src none).1 none 1
+
+/-- Each error carries the 1-based physical number of its line, counting blank and comment lines, and
+    quotes the line verbatim; errors are listed once each, in increasing line order. -/
+theorem error_line_exact (cc : UInt8) (src : Bytes) (e : PErr) (h : e ∈ errorsOf (events cc src)) :
+    1 ≤ lineOf e ∧ (Scanner.scan src none).1[lineOf e - 1]? = some (rawOf e) := by
+  rw [events_errors] at h
+  exact spec_line_exact cc _ false 1 e h
+
+theorem errors_in_file_order (cc : UInt8) (src : Bytes) :
+    ((errorsOf (events cc src)).map lineOf).Pairwise (· < ·) := by
+  rw [events_errors]
+  exact spec_lines_increasing cc _ false 1
+
+/-- the messages are those of parser/errors.go, quoting the line and its number -/
+theorem message_quotes_line (ln : Nat) (raw t : Bytes) :
+    PErr.message (.badSyntax ln raw) = sprintf Facts.badSyntaxFormat [.int ln, .str raw]
+    ∧ PErr.message (.conversion t ln raw) = sprintf Facts.conversionFormat [.str t, .int ln, .str raw] :=
+  ⟨rfl, rfl⟩
+
+/-- loading the recipe book fails with the first malformed line -/
+theorem book_fails_first (evs : List Event) (se : Option ScanErr) (e : PErr) (h : firstErr evs = some e) :
+    loadBook evs se = .error (.parse e) := by
+  unfold loadBook
+  suffices ∀ acc, loadBook.go se evs acc = .error (.parse e) from this []
+  induction evs with
+  | nil => simp [firstErr] at h
+  | cons ev r ih =>
+    intro acc
+    cases ev with
+    | error pe =>
+      simp [firstErr] at h
+      subst h
+      simp [loadBook.go]
+    | node n =>
+      simp only [loadBook.go]
+      exact ih (by simpa [firstErr] using h) _
+
+/-- walking the log fails with the first malformed line (when the headings before it are dates) -/
+theorem walk_fails_first (l : Layout) (b e : Option Int) (se : Option ScanErr) : ∀ (evs : List Event) (pe : PErr),
+    firstErr evs = some pe →
+    (∀ n, Event.node n ∈ evs → (Date.parse l n.header).isSome) →
+    (walk l b e se evs).2 = some (.parse pe) := by
+  intro evs
+  induction evs with
+  | nil => intro pe h; simp [firstErr] at h
+  | cons ev r ih =>
+    intro pe h hd
+    cases ev with
+    | error pe' =>
+      simp [firstErr] at h
+      subst h
+      simp [walk]
+    | node n =>
+      have hn := hd n (List.mem_cons_self)
+      cases hp : Date.parse l n.header with
+      | none => rw [hp] at hn; cases hn
+      | some c =>
+        simp only [walk, hp]
+        exact ih pe (by simpa [firstErr] using h) (fun m hm => hd m (List.mem_cons_of_mem _ hm))
+
+/-- `csv database` fails with the first malformed line -/
+theorem csv_database_fails_first (p : List Event × Option ScanErr) (e : PErr) (h : firstErr p.1 = some e) :
+    (csvDatabaseOut p).err = some (.parse e) := by
+  simp [csvDatabaseOut, h]
+
+/-- **lint** lists every malformed line once, in file order, with the same messages, and prints
+    "No errors found" exactly when there is none (and `--silent` was not given). -/
+theorem lint_lists_all (silent : Bool) (evs : List Event) :
+    (lintOut silent (evs, none)).out =
+      ((errorsOf evs).map (fun e => PErr.message e ++ [10])).flatten
+        ++ (if (errorsOf evs).isEmpty && !silent then Bytes.ofString "No errors found\n" else [])
+    ∧ (lintOut silent (evs, none)).err = none := by
+  simp [lintOut]
+
+/-! non-vacuity: comment, heading, good entry, blank line, two malformed lines -/
+def demoLines : List Bytes := [[35, 99], [97, 58], [32, 32, 120, 58, 32, 49], [], [32, 32, 121, 58, 49], [32, 32, 122, 58, 32, 113]]
+example : (specErrors 35 false 1 demoLines).map lineOf = [5, 6] := by decide +kernel
+
 end Hrano.C09
